@@ -63,6 +63,16 @@ type c34Chunking struct {
 	Sizes []int
 }
 
+// class is the chunking class used in violation keys: chunks of at most 5
+// bytes (start codes and units straddle reads) or of at least 4095 bytes.
+func (ch c34Chunking) class() string {
+	if ch.Sizes[0] == 0 || ch.Sizes[0] > 5 {
+		return "large"
+	}
+
+	return "small"
+}
+
 // c34Split is the own Annex-B splitter: units are the bytes between start
 // codes 00 00 01; one zero byte directly before a start code belongs to it
 // (4-byte form). Anything else before the first start code is an error.
@@ -378,7 +388,7 @@ func c34Eval(c *vkit.Check, codec string, units []c34Unit, widths []int, ch c34C
 	gi := 0
 	for wi, w := range want {
 		if gi >= len(got) {
-			viol(fmt.Sprintf("%s|unit-missing|type-sei=%v|pos=%s|chunk=%s", codec, w.SEI, c34Pos(wantIdx[wi], n), ch.Name),
+			viol(fmt.Sprintf("%s|unit-missing|pos=%s|chunks=%s", codec, c34Pos(wantIdx[wi], n), ch.class()),
 				func() string {
 					return fmt.Sprintf("reader returned %d units, expected %d: unit %d (%s/%s) missing (err=%v)", len(got), len(want), wantIdx[wi], w.Type, w.Shape, rerr)
 				})
@@ -398,7 +408,7 @@ func c34Eval(c *vkit.Check, codec string, units []c34Unit, widths []int, ch c34C
 					return
 				}
 			}
-			viol(fmt.Sprintf("%s|data-mismatch|shape=%s|sc=%d|pos=%s|chunk=%s", codec, w.Shape, widths[wantIdx[wi]], c34Pos(wantIdx[wi], n), ch.Name),
+			viol(fmt.Sprintf("%s|data-mismatch|sc=%d|chunks=%s", codec, widths[wantIdx[wi]], ch.class()),
 				func() string {
 					return fmt.Sprintf("unit %d (%s/%s): got %d bytes %x…, want %d bytes %x…", wantIdx[wi], w.Type, w.Shape, len(g.Data), g.Data[:min(len(g.Data), 12)], len(w.Data), w.Data[:min(len(w.Data), 12)])
 				})
@@ -431,7 +441,7 @@ func c34Eval(c *vkit.Check, codec string, units []c34Unit, widths []int, ch c34C
 				return
 			}
 		}
-		viol(fmt.Sprintf("%s|extra-unit|chunk=%s", codec, ch.Name),
+		viol(fmt.Sprintf("%s|extra-unit|chunks=%s", codec, ch.class()),
 			func() string {
 				return fmt.Sprintf("reader returned %d units, expected %d; extra unit of %d bytes %x…", len(got), len(want), len(g.Data), g.Data[:min(len(g.Data), 12)])
 			})
@@ -503,11 +513,12 @@ func TestVerifC34(t *testing.T) {
 		types  map[string]bool // nil = all types of the codec
 	}
 	var plans []plan
+	// the longest sequences only over the types the readers distinguish (SEI / not SEI, parameter set / slice)
+	few := map[string]bool{"SPS": true, "IDR": true, "SEI": true, "PSEI": true, "SSEI": true}
 	if quick {
-		plans = []plan{{1, c34Shapes, nil}, {2, c34Shapes, nil}, {3, c34Shapes[:3], nil}}
+		few["TRAIL"], few["nonIDR"] = true, true
+		plans = []plan{{1, c34Shapes, nil}, {2, c34Shapes, nil}, {3, c34Shapes[:3], few}}
 	} else {
-		// length 4 only over the types the readers distinguish (SEI / not SEI, parameter set / slice)
-		few := map[string]bool{"SPS": true, "IDR": true, "SEI": true, "PSEI": true, "SSEI": true}
 		plans = []plan{
 			{1, c34Shapes, nil},
 			{2, c34Shapes, nil},
@@ -521,6 +532,9 @@ func TestVerifC34(t *testing.T) {
 		tt := "all types"
 		if p.types != nil {
 			tt = "types SPS, IDR and the SEI types"
+			if quick {
+				tt = "types SPS, IDR, non-IDR/TRAIL and the SEI types"
+			}
 		}
 		planText = append(planText, fmt.Sprintf("len=%d over %s x shapes %v", p.length, tt, p.shapes))
 	}
